@@ -220,7 +220,7 @@ def arburg(X, order, criteria=None):
     if criteria:
         from spectrum import Criteria
         crit = Criteria(name=criteria, N=N)
-        crit.data = rho
+        crit(rho=rho, k=0)  # criterion value of the order-0 model
         logging.debug('Step {}. old criteria={} new one={}.  rho={}'.format(
                 0, crit.old_data, crit.data, rho))
 
